@@ -48,7 +48,7 @@ func (c04) RaceCases(tier string) int {
 }
 func (c04) Floor(tier string) int { return 1500 }
 
-var c04Keys = []string{"a", "b", "c", "d", "x", "y", "k"}
+var c04Keys = []string{"a", "b", "c", "d", "x", "y", "k", ""}
 
 func c04Map(r *rand.Rand, depth int) *ref.V {
 	p := gen.Default()
@@ -66,6 +66,10 @@ func c04Map(r *rand.Rand, depth int) *ref.V {
 			continue
 		}
 		m.M = append(m.M, ref.KV{K: k, V: gen.Value(r, p)})
+	}
+	if len(m.M) > 0 && r.IntN(4) == 0 {
+		// "unset-looking" values that are values all the same: false, 0, ""
+		m.M[r.IntN(len(m.M))].V = []*ref.V{ref.BoolV(false), ref.IntV(0), ref.StrV(""), ref.BoolV(false)}[r.IntN(4)]
 	}
 	return m
 }
